@@ -9,8 +9,9 @@ import re
 import zipfile
 
 
-def wheel_bytes(name, version, requires=(), extras=None, body=None):
-    """a minimal, valid, deterministic wheel"""
+def wheel_bytes(name, version, requires=(), extras=None, body=None, description=None, meta_bytes=None):
+    """a minimal, valid, deterministic wheel; `description` is the long description (after the blank line that ends the
+    headers), `meta_bytes` raw bytes of further header lines (another encoding than UTF-8, odd characters)"""
     buf = io.BytesIO()
     dist = "%s-%s.dist-info" % (name.replace("-", "_"), version)
     meta = ["Metadata-Version: 2.1", "Name: %s" % name, "Version: %s" % version]
@@ -24,7 +25,10 @@ def wheel_bytes(name, version, requires=(), extras=None, body=None):
             z.writestr(zi, data)
         w("%s/__init__.py" % name.replace("-", "_").replace(".", "_"), body or "")
         w(dist + "/WHEEL", "Wheel-Version: 1.0\nGenerator: rv\nRoot-Is-Purelib: true\nTag: py3-none-any\n")
-        w(dist + "/METADATA", "\n".join(meta) + "\n")
+        data = ("\n".join(meta) + "\n").encode("utf-8") + (meta_bytes or b"")
+        if description is not None:
+            data += b"\n" + description.encode("utf-8")
+        w(dist + "/METADATA", data)
         w(dist + "/RECORD", "")
     return buf.getvalue()
 
